@@ -5,7 +5,7 @@ Oracle (DESIGN appendix A.1), with r=L1, c=L2, w=W:
   cell(i,j) = d + min(cell(i-1,j-1), cell(i-1,j)+pen, cell(i,j-1)+pen)
 """
 from ..cfront import AnalysisError
-from ..ir import fmt, walk_expr, walk_stmts, dotted
+from ..ir import fmt, walk_expr, walk_stmts, dotted, orient
 from .. import sym
 from ..sym import var, const, add, sub, tmin, tmax, scale
 from ..symexec import subst_expr, reads_of, norm_minmax
@@ -360,14 +360,11 @@ def rule_recurrence(ctx, F):
     okg = False
     for g in guard:
         c = g[1][-1] if g[1] else None
-        if c is not None and c[0] == 'bin' and c[1] == '>' and c[2] == D:
-            okg = True
-            F.max_step_expr = c[3]
-        elif c is not None and c[0] == 'bin' and c[1] == 'and':
-            for part in (c[2], c[3]):
-                if part[0] == 'bin' and part[1] == '>' and part[2] == D:
-                    okg = True
-                    F.max_step_expr = part[3]
+        for part in (_conj([c]) if c is not None else []):
+            o = orient(part, D)
+            if o is not None and o[0] == '>':
+                okg = True
+                F.max_step_expr = o[2]
     ctx.check(okg, 'R-REC', F.file, F.name, 'max_step guard', 'no guard of the form `d > max_step -> skip cell` (same comparator in every copy) before the DP store', F.inner_line)
     ctx.sample({'kernel': F.name, 'predecessors': sorted((list(k), v) for k, v in got.items()), 'offset': sym.show(off_cur)[:200]})
 
@@ -468,9 +465,10 @@ def rule_prune(ctx, F):
               brk[0][2].line)
     # break guard: j >= ec(prev)
     last = path[-1]
-    okb = last[0] == 'bin' and last[1] == '>=' and last[2] == ('var', 'j') and last[3][0] == 'var' and last[3][1].endswith('@prev')
+    ol = orient(last, ('var', 'j'))
+    okb = ol is not None and ol[0] == '>=' and ol[2][0] == 'var' and ol[2][1].endswith('@prev')
     ctx.check(okb, 'R-PRUNE', F.file, F.name, 'prune break guard', 'the early break must be guarded by `j >= ec` (ec from the previous row); found %s' % fmt(last)[:120], brk[0][2].line)
-    ecv = last[3][1][:-5] if okb else None
+    ecv = ol[2][1][:-5] if okb else None
     # end-of-iteration values
     env_out = {k: _replace(v, rep) if isinstance(v, tuple) else v for k, v in (F.col_env or {}).items()}
     P = ('bin', '>', stored, b) if not neg else None
@@ -1066,11 +1064,12 @@ def rule_dom_py(ctx, m, F):
         for x in walk_expr(body):
             if x[0] == 'cond':
                 for c in _conj([x[1]]):
-                    if c[0] == 'bin' and c[1] in ('>', '>=') and c[3][0] == 'attr':
+                    o = orient(c, lambda e: e[0] != 'attr')
+                    if o is not None and o[0] in ('>', '>=') and o[2][0] == 'attr':
                         cmpd = True
-                        ctx.check(c[1] == '>', 'R-PRUNE', F.file, F.name, 'final threshold comparator',
+                        ctx.check(o[0] == '>', 'R-PRUNE', F.file, F.name, 'final threshold comparator',
                                   'a result equal to max_dist must be returned, only `d > max_dist` becomes infinity', ev[3].line)
-                        at = c[3][2]
+                        at = o[2][2]
                         ctx.check(at.startswith('adj_'), 'R-DOM', F.file, F.name, 'final threshold domain',
                                   'the final comparison is made before result_fn, so the threshold must be the internal-domain value; found .%s' % at, ev[3].line)
                         if at in taint:
